@@ -203,16 +203,18 @@ def main():
     n_obl = len(summ)
     n_dis = 0
     kf_obl = 0
+    kf_discharged, kf_refuted = {}, {}
     for oid, o in sorted(summ.items()):
         if o["status"] == "discharged":
             n_dis += 1
             k = match_known(known, prop, "obligation", oid=oid)
             if k is not None:
-                print("NOTE: known finding %s no longer reproduces for %s (stale entry?)" % (k["id"], oid))
+                kf_discharged[k["id"]] = kf_discharged.get(k["id"], 0) + 1
         elif o["status"] == "refuted":
             k = match_known(known, prop, "obligation", oid=oid)
             if k is not None:
                 kf_obl += 1
+                kf_refuted[k["id"]] = kf_refuted.get(k["id"], 0) + 1
                 line = "KNOWN-FINDING: property=%s %s [%s]" % (prop, k["what"], k["id"])
                 if line not in known_lines:
                     known_lines.append(line)
@@ -231,6 +233,9 @@ def main():
             crashes.append(oid + ": " + o.get("detail", "")[:2000])
         else:
             undecided.append((oid, o.get("detail", "")))
+    for kid in kf_discharged:
+        if kid not in kf_refuted:
+            print("NOTE: known finding %s is not re-found by the proof tier on this tree (all %d matching obligations discharged): stale entry or repaired" % (kid, kf_discharged[kid]))
     # baseline comparison: obligations that used to be discharged must still be generated
     generated = set(summ)
     missing = [b for b in baseline.get("discharged", []) if b not in generated]
